@@ -530,14 +530,20 @@ class Engine:
                                     s_out.spec = False
 
     def do_if(self, st, stmt):
+        free_ = ast.unparse(stmt.test) in self.c.get('free_conditions', ())
+        tainted0 = st.tainted
         try:
             c = self.ev_cond(stmt.test, st)
+            if free_:
+                st.tainted = tainted0      # a condition the contract declares free (either outcome can be arranged by the caller) does not taint the path
         except Unsupported as u:
             if not self.c.get('lenient'):
                 raise
             # lenient contract: a branch condition outside the modelled subset is a nondeterministic choice (both branches, nothing learned)
-            self.lenient_skips.append((stmt.lineno, f'branch condition not modelled: {u}'))
-            st.tainted = True
+            free = ast.unparse(stmt.test) in self.c.get('free_conditions', ())
+            self.lenient_skips.append((stmt.lineno, f'branch condition not modelled ({"declared free: either outcome can be arranged by the caller" if free else "taints the path"}): {u}'))
+            if not free:
+                st.tainted = True
             c = z3.Bool(fresh_name('unk_cond'))
         d = self.decide(st, c)
         out = []
